@@ -248,6 +248,8 @@ prints_as_itself(int h, struct inst_s x, struct dt_dt_s v)
 #define MAXI	512
 static struct inst_s I[MAXI];
 static int nI;
+static int nI0;	/* the instants every representation has a text for come first; the rest are the midnights and
+		 * noons around the entries, for values held as day numbers (N.0 / N.5) */
 
 static void
 mk_I(void)
@@ -268,6 +270,13 @@ mk_I(void)
 	}
 	for (size_t k = 0; k < sizeof(far) / sizeof(*far); k++) {
 		I[nI++] = (struct inst_s){far[k], 0};
+	}
+	nI0 = nI;
+	for (int i = 0; i < nlm; i++) {
+		static const int off[] = {-129600, -86400, -43200, 0, 43200, 86400};
+		for (int k = 0; k < 6; k++) {
+			I[nI++] = (struct inst_s){lm[i].t + off[k], 0};
+		}
 	}
 }
 
@@ -507,9 +516,12 @@ ddiff_rs(struct dt_dt_s a, struct dt_dt_s b, char *out, size_t osz)
 	return 1;
 }
 
-static const int rs_reps[] = {H_YMD, H_YMCW, H_DAISY, H_SEXY, H_YWD, H_YD};
-#define NRSREP_QUICK	4
-#define NRSREP		6
+static const int rs_reps[] = {H_YMD, H_YMCW, H_DAISY, H_SEXY, H_BIZDA, H_YWD, H_YD};
+#define NRSREP_QUICK	5
+#define NRSREP		7
+/* the representations added after the first round of listings: differences of 2^31 s or more (a recorded
+ * limit of the duration layout, the same for every representation) are left out for them */
+#define LATE_REP_P(h)	((h) == H_BIZDA || (h) == H_LDN || (h) == H_MDN)
 
 static const char*
 nleap_name(int n)
@@ -543,6 +555,11 @@ judge_rs(int h, int ia, int ib, int replay)
 		return 0;
 	}
 	want = taib - taia;
+	if (LATE_REP_P(h) && llabs(want) >= 2147483648LL) {
+		EX_CTR(c_skips, "skipped:difference of 2^31 s or more in a representation added later (recorded limit of the duration layout)");
+		++*c_skips;
+		return 0;
+	}
 	ok = ddiff_rs(a, b, got, sizeof(got));
 	++*c_trans;
 	if (m_leaps_between(taia, taib)) {
@@ -646,6 +663,20 @@ judge_addrs_d(int h, int ia, const struct rsdur_s *d, int k, int landk, int delt
 		return 0;
 	}
 	want = taia + d->n;
+	if (h == H_BIZDA) {
+		/* a bizda-held value cannot name a weekend day (recorded under C11): leave out the additions whose
+		 * result, or whose plain UTC sum, falls on one */
+		int64_t plain = (I[ia].u - I[ia].s60) + d->n, res = want - 37;
+		if (plain >= 0 && plain <= 67090118399LL && res >= 0 && res <= 67090118399LL &&
+		    (!rc_get(RD_OF_UNIX(plain))->isbd || !rc_get(RD_OF_UNIX(res))->isbd || !rc_get(RD_OF_UNIX(want - 10 < 0 ? 0 : want - 10))->isbd)) {
+			EX_CTR(c_skipw, "skipped:bizda-held value whose result falls on or next to a weekend (no name in that calendar; recorded under C11)");
+			++*c_skipw;
+			return 0;
+		}
+	}
+	if (LATE_REP_P(h) && llabs(d->n) >= 1000000000LL) {
+		return 0;	/* the far counts add nothing for the representations added later */
+	}
 	if (llabs(d->n) == 1500000000LL && !m_before_first(I[ia].u - I[ia].s60)) {
 		/* this count exists to span 1970/1971 -> 2017; it is applied to starts before the first entry only */
 		return 0;
@@ -771,7 +802,7 @@ judge_leap60(int gps, int k, int binary, int replay)
 		snprintf(c2, sizeof(c2), "'%s/src/dconv' --zone %s %s 2>/dev/null", ex.tree ? ex.tree : ".", gps ? "GPS" : "TAI", text);
 		if ((pp = popen(c2, "r")) != NULL) {
 			if (fgets(got, sizeof(got), pp)) {
-				got[strcspn(got, "\n")] = ' ';
+				got[strcspn(got, "\n")] = '\0';
 			}
 			pclose(pp);
 		}
@@ -890,7 +921,7 @@ bind_run(const char *label, const char *cmdfmt_tool, const char *args, int h, in
 	if ((f = fopen(fin, "w")) == NULL) {
 		return;
 	}
-	for (int i = 0; i < nI; i++) {
+	for (int i = 0; i < nI0; i++) {
 		struct dt_dt_s v;
 		int64_t tai;
 		/* only lines the tool accepts and the table covers, so that lines stay aligned;
@@ -1044,14 +1075,14 @@ main(int argc, char *argv[])
 		"4095-12-31T23:59:59 ...): %d instants. BIS: epoch keys = I, every midnight 1970..4095, the int32 extremes; ymd/ymcw/day-count keys = "
 		"every day 1970-01-01..4095-12-31 and the uint32 extremes. OFFS: I, every midnight 1970..4095, 2^31+-2, 2^32+-2, 2^33 x {TAI,GPS} x "
 		"{zif_local_time, dconv path}. RS: all %d ordered pairs of I x %d held representations (%s). ADD: I x +-{1,2,3,60,86400,86401,10^7,10^9} rs, and +-1.5*10^9 rs from the instants before the first entry, "
-		"x the same representations; LAND: I x 27 inserted seconds x 7 landing offsets x the same representations; LEAP60: 27 inserted seconds x {TAI,GPS} x {library, dconv binary}, label round trips 27 x 7 x 2", nI, nI * nI, nrep, ex.thorough ? "ymd ymcw daisy epoch ywd yd" : "ymd ymcw daisy epoch");
+		"x the same representations; LAND: I x 27 inserted seconds x 7 landing offsets x the same representations; LEAP60: 27 inserted seconds x {TAI,GPS} x {library, dconv binary}, label round trips 27 x 7 x 2; DAYNUM: ldn- and mdn-held date-times (N.0, N.5) on the midnights and noons -1.5..+1 days around every entry: all ordered pairs for %%rS, +-16 counts and the LAND family", nI0, nI0 * nI0, nrep, ex.thorough ? "ymd ymcw daisy epoch bizda ywd yd" : "ymd ymcw daisy epoch bizda");
 	ex_meta("binding", "dconv --zone TAI|GPS, ddiff REF -f %%rS and dadd +Nrs binaries of the same build on the instant set from stdin, "
 		"byte-compared with the library-level observation");
 
 	/* BIS: epoch keys */
 	if (ex_mine(slice++)) {
 		static const int64_t ext[] = {INT32_MIN, INT32_MIN + 1LL, -1, 0, 1, INT32_MAX - 1LL, INT32_MAX};
-		for (int i = 0; i < nI; i++) {
+		for (int i = 0; i < nI0; i++) {
 			if (!I[i].s60 && I[i].u <= INT32_MAX) {
 				judge_bis_epoch(I[i].u, 0);
 			}
@@ -1106,7 +1137,7 @@ main(int argc, char *argv[])
 		static const int64_t seams[] = {2147483646LL, 2147483647LL, 2147483648LL, 2147483649LL, 2147483650LL,
 			4294967294LL, 4294967295LL, 4294967296LL, 4294967297LL, 4294967298LL, 8589934592LL};
 		for (int gps = 0; gps < 2; gps++) {
-			for (int i = 0; i < nI; i++) {
+			for (int i = 0; i < nI0; i++) {
 				if (!I[i].s60) {
 					judge_offs(gps, I[i].u, 0);
 					if (!gps) {
@@ -1119,7 +1150,7 @@ main(int argc, char *argv[])
 			}
 		}
 		++*c_traces;
-		ex_sample("OFFS: %d instants of I and 11 seam instants x {TAI,GPS}", nI);
+		ex_sample("OFFS: %d instants of I and 11 seam instants x {TAI,GPS}", nI0);
 	}
 	/* LEAP60 / label round trips: slice = entry */
 	for (int k = 1; k < nlm; k++, slice++) {
@@ -1140,7 +1171,7 @@ main(int argc, char *argv[])
 	}
 	/* LAND: every start of I x every inserted second x landing offsets -3..+3; slice = (rep, start) */
 	for (int r = 0; r < nrep; r++) {
-		for (int ia = 0; ia < nI; ia++, slice++) {
+		for (int ia = 0; ia < nI0; ia++, slice++) {
 			if (!ex_mine(slice) || ex_expired()) {
 				continue;
 			}
@@ -1155,14 +1186,36 @@ main(int argc, char *argv[])
 			++*c_traces;
 		}
 	}
-	/* RS: slice = (rep, first instant) */
-	for (int r = 0; r < nrep; r++) {
-		for (int ia = 0; ia < nI; ia++, slice++) {
+	/* DAYNUM: values held as Lilian / Matlab day numbers with a time part; slice = (rep, first instant) */
+	for (int r = 0; r < 2; r++) {
+		const int h = r ? H_MDN : H_LDN;
+		for (int ia = nI0; ia < nI; ia++, slice++) {
 			if (!ex_mine(slice) || ex_expired()) {
 				continue;
 			}
 			++*c_states;
-			for (int ib = 0; ib < nI; ib++) {
+			for (int ib = nI0; ib < nI; ib++) {
+				judge_rs(h, ia, ib, 0);
+			}
+			for (int k = 0; k < NRSN * 2; k++) {
+				judge_addrs(h, ia, k, 0);
+			}
+			for (int k = 1; k < nlm; k++) {
+				for (int d = -3; d <= 3; d++) {
+					judge_land(h, ia, k, d, 0);
+				}
+			}
+			++*c_traces;
+		}
+	}
+	/* RS: slice = (rep, first instant) */
+	for (int r = 0; r < nrep; r++) {
+		for (int ia = 0; ia < nI0; ia++, slice++) {
+			if (!ex_mine(slice) || ex_expired()) {
+				continue;
+			}
+			++*c_states;
+			for (int ib = 0; ib < nI0; ib++) {
 				judge_rs(rs_reps[r], ia, ib, 0);
 			}
 			for (int k = 0; k < NRSN * 2; k++) {
@@ -1172,7 +1225,7 @@ main(int argc, char *argv[])
 			if (ex_want_sample()) {
 				char nm[64];
 				ex_sample("RS/ADD %s-held: %s against all %d instants (%%rS) and +-8 real-second counts", held_name[rs_reps[r]],
-					  inst_name(I[ia], nm, sizeof(nm)), nI);
+					  inst_name(I[ia], nm, sizeof(nm)), nI0);
 			}
 		}
 	}
@@ -1180,7 +1233,7 @@ main(int argc, char *argv[])
 	{
 		struct itimerval zt = {{0, 0}, {0, 0}};
 		int i2012 = -1;
-		for (int i = 0; i < nI; i++) {
+		for (int i = 0; i < nI0; i++) {
 			if (I[i].u == 1341100800 && !I[i].s60) {
 				i2012 = i;
 			}
